@@ -418,6 +418,7 @@ func vConcat(a, b []*tree.Statement) []*tree.Statement {
 type vSpecOutcome struct {
 	yield   *tree.Statement // line or option group, nil otherwise
 	end     bool
+	stopped bool
 	fail    bool
 	pending bool
 	K       []*tree.Statement
@@ -582,6 +583,7 @@ func (w *vWorld) vSpecNext(env *vSpecEnv, K []*tree.Statement, waiting *tree.Sho
 			}
 			switch *el[0].Expression.Value.String {
 			case "stop":
+				out.stopped = true
 				out.end = true
 				out.K = K
 				return out
